@@ -115,6 +115,13 @@ class _State:
             if k in self.env and (v is None or isinstance(v, (bool, int, float, str))):
                 self.env[k] = set()
 
+    def _rebound(self, name: str) -> bool:
+        """the parameter is assigned somewhere in the function (its literal binding then does not hold everywhere)"""
+        for n in ast.walk(self.fi.node):
+            if isinstance(n, ast.Name) and n.id == name and isinstance(n.ctx, (ast.Store, ast.Del)):
+                return True
+        return False
+
     # -------------------------------------------------------------- driver
     def run(self):
         body = self.fi.node.body if isinstance(self.fi.node.body, list) else [ast.Return(value=self.fi.node.body)]
@@ -429,9 +436,13 @@ class _State:
             for p, a in zip(rest, lit_pos):
                 if isinstance(a, ast.Constant) and (a.value is None or isinstance(a.value, (bool, int, float, str))):
                     consts[p] = a.value
+                elif isinstance(a, ast.Name) and a.id in self.consts and not self._rebound(a.id):
+                    consts[p] = self.consts[a.id]  # a literal flag of this context handed on unchanged
             for kw in e.keywords:
                 if kw.arg and isinstance(kw.value, ast.Constant) and (kw.value.value is None or isinstance(kw.value.value, (bool, int, float, str))):
                     consts[kw.arg] = kw.value.value
+                elif kw.arg and isinstance(kw.value, ast.Name) and kw.value.id in self.consts and not self._rebound(kw.value.id):
+                    consts[kw.arg] = self.consts[kw.value.id]
             for p in rest + [a.arg for a in callee.node.args.kwonlyargs]:
                 if p not in binding and p in defaults and isinstance(defaults[p], ast.Constant):
                     v = defaults[p].value
